@@ -47,21 +47,30 @@ Definition resolve_in (tab : ns_table) (link : option tok) (_ : list text) : res
 
 (* ---- writer: titles ---- *)
 
-(* _get_block_title for one block whose label (or str(id(block))) is `l`, given the titles handed
-   out so far; the token-level title is the label itself (escaping is C02's) *)
-Fixpoint uniq_title (fuel : nat) (l : tok) (used : list tok) (idx : Z) (title : tok) : res tok :=
+Section Titles.
+(* nexusprocessing.escape_nexus_token with the writer's options: the TEXT a title is written as.
+   An uninterpreted function here (its properties are the token layer's, C02); the harness
+   supplies its values on the titles of a case. *)
+Variable esc : tok -> text.
+
+(* _get_block_title for one block whose label (or str(id(block))) is `l`: the title is escaped
+   FIRST and the escaped text is what is tested against, and stored in, _title_block_map
+   (`used`: the escaped titles handed out so far); each retry escapes "<label>.<idx>" *)
+Fixpoint uniq_title (fuel : nat) (l : tok) (used : list text) (idx : Z) (title : text) : res text :=
   match fuel with
   | O => OutOfFuel
-  | S f => if text_mem title used then uniq_title f l used (idx + 1) (l ++ 46 :: render_nat idx)
+  | S f => if text_mem title used then uniq_title f l used (idx + 1) (esc (l ++ 46 :: render_nat idx))
            else Ok title
   end.
 
-Fixpoint assign_titles (labels : list tok) (used : list tok) : res (list tok) :=
+(* the escaped titles of a sequence of blocks, in the order they ask for a title *)
+Fixpoint assign_titles (labels : list tok) (used : list text) : res (list text) :=
   match labels with
   | [] => Ok []
-  | l :: r => do t <- uniq_title (S (length used)) l used 1 l ;;
+  | l :: r => do t <- uniq_title (S (length used)) l used 1 (esc l) ;;
               do ts <- assign_titles r (used ++ [t]) ;; Ok (t :: ts)
   end.
+End Titles.
 
 (* _link_blocks *)
 Definition link_blocks (suppress_block_titles : option bool) (n_namespaces : Z) : bool :=
@@ -69,3 +78,49 @@ Definition link_blocks (suppress_block_titles : option bool) (n_namespaces : Z) 
   | None => 1 <? n_namespaces
   | Some b => negb b
   end.
+
+(* ---- _get_block_title as a whole: one request for the title of one block ----
+   A block (taxon namespace, matrix, tree list) is its identity (a number) plus its label; `given`
+   lists (block, escaped title) in the order the titles were handed out: it is the writer's
+   _block_title_map, and read the other way round its _title_block_map. *)
+Section BlockTitle.
+Variable esc : tok -> text.
+Variable idstr : nat -> text.          (* str(id(block)): an input *)
+
+(* the string a title is made from: the label, or str(id(block)) when the label is None or empty *)
+Definition title_source (b : nat) (label : option text) : tok :=
+  match label with
+  | Some (c :: r) => c :: r
+  | _ => idstr b
+  end.
+
+Fixpoint title_of_block (given : list (nat * text)) (b : nat) : option text :=
+  match given with
+  | [] => None
+  | (j, t) :: r => if Nat.eqb b j then Some t else title_of_block r b
+  end.
+
+(* the writer's _title_block_map: the same pairs, keyed by the (escaped) title *)
+Definition title_block_map (given : list (nat * text)) : list (text * nat) := map (fun e => (snd e, fst e)) given.
+
+Definition get_block_title (fuel : nat) (linked : bool) (given : list (nat * text)) (b : nat) (label : option text)
+  : res (list (nat * text) * option text) :=
+  if negb linked then Ok (given, None)
+  else match title_of_block given b with
+       | Some t => Ok (given, Some t)
+       | None => do t <- uniq_title esc fuel (title_source b label) (map snd given) 1 (esc (title_source b label)) ;;
+                 Ok (given ++ [(b, t)], Some t)
+       end.
+
+(* the titles a sequence of blocks gets, each asking once, in this order *)
+Fixpoint request_titles (blocks : list (nat * option text)) (given : list (nat * text)) : res (list text) :=
+  match blocks with
+  | [] => Ok []
+  | (b, l) :: r =>
+    do x <- get_block_title (S (length given)) true given b l ;;
+    match snd x with
+    | Some t => do ts <- request_titles r (fst x) ;; Ok (t :: ts)
+    | None => Err OtherErr
+    end
+  end.
+End BlockTitle.
